@@ -6,6 +6,12 @@ Parts:
                        svgtree_dump) vs Model.Cascade.build_doc, compared inside Coq (doc_case_ok)
           `find-attr`: svg>g>g>path chains -> FillRule/LineCap/LineJoin of the converted path vs the model's
                        find_attribute (find_case_ok)
+          `selector` : documents with style sheets over all selector forms simplecss supports (type, *, #id, .class,
+                       [a], [a=v], [a~=v], [a|=v], :first-child, other pseudo-classes, descendant / child / adjacent
+                       combinators, groups, injected sheet) -> svgtree vs Model.CascadeSel (the MODEL matches the
+                       selectors, sorts the rules by specificity and runs the cascade: sel_case_ok)
+  tables  Gen/ReadSites.v (tools/gen_readsites.py): every read site of a presentation attribute in the converter with the
+          Rust type it is parsed with; obligations of Proofs/CascadeSites.v decided by computation over it
   S       `spelling` : random base documents over all presentation properties x spelling rewrites
                        -> Tree::to_string compared token-wise (numbers within 1e-4 relative)
 Noise floor measured on 18 724 pairs (thorough tier, seed 1) + 3 x 1 200 (quick, seeds 1, 2, 12345): largest relative
@@ -1964,8 +1970,13 @@ def table_witness_pairs(names):
 def run(ctx):
     quick = ctx.tier == 'quick'
     ctx.cov['trusted_base'] = vlib.BASE_TRUSTED + [
-        "selector matching and CSS tokenisation (simplecss), XML (roxmltree), value grammars (svgtypes): unmodelled; the "
-        "generators order matched rules as simplecss does and the `cascade` correspondence cross-checks it",
+        "CSS tokenisation and selector PARSING (simplecss), XML (roxmltree), value grammars (svgtypes): unmodelled; selector "
+        "MATCHING, specificity and the rule order are Model/CascadeSel.v (transcribed from simplecss 0.2.1 + usvg's Element impl, "
+        "anchored by gen_svgtree) and tied by the `selector` correspondence; the `cascade` correspondence still uses the "
+        "generator's own matcher for type/id/class selectors",
+        "read sites: the value type of a read is inferred syntactically by tools/gen_readsites.py (turbofish, let annotation, "
+        "fallback value, literal comparison, helper bodies); an undeterminable site is a broken tie; spec_classes (notation set "
+        "per property) is hand-transcribed",
         "Model/Cascade.v control flow (copy loop, insert_attribute, resolve_inherit, find_attribute) is hand-written: tied by the "
         "`cascade` / `find-attr` correspondences; all tables and the has_precedence expression are source-derived",
         "spec_noninherited / spec_initial (SVG 1.1 property index) are hand-transcribed",
@@ -2073,6 +2084,13 @@ def run(ctx):
         "(presentation, non-presentation, unknown, foreign namespace), style attributes and 0-3 style sheets + injected sheet with "
         "universal/type/id/class/compound/descendant/child selectors, `inherit` and !important; non-trivial = some CSS or style "
         "declaration applies.  find-attr: svg>g>g>path chains with 3 enumerated properties from attribute/CSS/style/inherit.  "
+        "selector: random trees of 4-10 elements with id / class (multi-word) / foo / data-k / lang attributes and 2-8 rules whose "
+        "selectors are drawn from the whole supported grammar (1-3 components, descendant / child / adjacent combinators, type or "
+        "universal, up to 3 of #id .class [a] [a=v] [a~=v] [a|=v] :first-child :hover :link :lang()), half derived from an element of "
+        "the tree, groups, injected sheet, !important; matching, specificity sort and cascade done by the model.  "
+        "spelling: the notation sweep writes every property at every element kind of the template that reads it (hand table completed "
+        "from the source-derived read-site table: flood-* on feFlood and feDropShadow, lighting-color on both lighting primitives, "
+        "image-rendering on image and feImage, ...) in every notation (percentage, number forms, colour forms, units at dpi 72/96/300).  "
         "spelling: random base documents over all presentation properties (template with gradient, clipPath, mask, two filters, "
         "marker, shapes, content-less shapes with group-forming properties, text, image) x {move to attribute/style/CSS by id/class/type, !important, universal and type-wide rules, "
         "injected sheet, shadowed lower-precedence declarations, piles of 3-5 declarations around an (important) winner, explicit inherit (parent / ancestor / default), explicit default, "
